@@ -235,7 +235,10 @@ def _wrap(repo, L, fs, ws: Func):
     for o in out_names:
         if "." not in o:
             st.env[o] = Sym("out")
-    outs = ex.run_block(wl.body, st, ws)
+    # one iteration = test, then body (the read may sit in the loop test: `while seq := chunk.read(want):`)
+    one = ast.If(test=wl.test, body=wl.body, orelse=[ast.copy_location(ast.Break(), wl)])
+    ast.copy_location(one, wl)
+    outs = ex.run_block([one], st, ws)
     W, LLa, n_ = Lin.atom("W"), Lin.atom("LL"), Lin.atom("n")
     kinds = {}
     ok, why = True, ""
